@@ -106,3 +106,20 @@ pub assume_specification<L, T> [tower::ServiceBuilder::<L>::layer::<T>] (s: towe
     ensures sb_limit(r) == any_limit(t);
 pub assume_specification<L: Clone> [<tower::ServiceBuilder<L> as Clone>::clone] (s: &tower::ServiceBuilder<L>) -> (r: tower::ServiceBuilder<L>)
     ensures sb_limit(r) == sb_limit(*s);
+
+// ---- the upstream write path: tokio Mutex<Client> -> Client -> hyper SendRequest ----
+#[verifier::external_type_specification] #[verifier::external_body] #[verifier::reject_recursive_types(B)]
+pub struct ExSendRequest<B>(hyper::client::conn::http1::SendRequest<B>);
+pub assume_specification<B> [hyper::client::conn::http1::SendRequest::<B>::is_closed] (_0: &hyper::client::conn::http1::SendRequest<B>) -> bool;
+#[verifier::reject_recursive_types(T)]
+#[verifier::external_type_specification] #[verifier::external_body]
+pub struct ExTokioMutexGuard<'a, T>(tokio::sync::MutexGuard<'a, T>) where T: std::marker::MetaSized + ?Sized;
+pub assume_specification<T> [tokio::sync::Mutex::<T>::lock] (_0: &tokio::sync::Mutex<T>) -> impl std::future::Future<Output = tokio::sync::MutexGuard<'_, T>>
+    where T: std::marker::MetaSized + ?Sized;
+// (only so that Verus' trait-conflict checker sees the Deref impls that std's DerefMut impls of these types depend on)
+#[verifier::external_type_specification] #[verifier::external_body]
+pub struct ExOsStr(std::ffi::OsStr);
+#[verifier::external_type_specification] #[verifier::external_body]
+pub struct ExPath(std::path::Path);
+pub assume_specification [<std::ffi::OsString as core::ops::Deref>::deref] (s: &std::ffi::OsString) -> &std::ffi::OsStr;
+pub assume_specification [<std::path::PathBuf as core::ops::Deref>::deref] (s: &std::path::PathBuf) -> &std::path::Path;
